@@ -11,7 +11,7 @@
 """
 import ast
 from pyexpr2lean import (Gen, Tr, Untranslatable, load, get_def, find_assign, find_assigns, find_returns, find_calls)
-from gen_c07 import PTr, Body, assigned_names, _proj, _tuple, _returns, translate_fn, M as M7
+from gen_c07 import PTr, Body, assigned_names, _proj, _tuple, _returns, translate_fn, inline_helpers, get_def_inlined, M as M7
 
 M = 'Model.C08'
 HDR = 'set_option linter.unusedVariables false\nvariable {K : Type} [Num K]\n'
@@ -371,6 +371,24 @@ def _forceable(g):
     return g
 
 
+def _pair_loop(fn):
+    """the last `for n, m in nms` / `for k, (n, m) in enumerate(nms)` loop of a two-index *_seq -> (loop, n name, m name); with
+    enumerate the counter is the row written (`out[k] = …`), exactly like the hand-incremented one"""
+    found = None
+    for st in fn.body:
+        if not isinstance(st, ast.For):
+            continue
+        t, it = st.target, ast.unparse(st.iter)
+        if it == 'nms' and isinstance(t, ast.Tuple) and len(t.elts) == 2 and all(isinstance(e, ast.Name) for e in t.elts):
+            found = (st, t.elts[0].id, t.elts[1].id)
+        elif it == 'enumerate(nms)' and isinstance(t, ast.Tuple) and len(t.elts) == 2 and isinstance(t.elts[1], ast.Tuple) \
+                and len(t.elts[1].elts) == 2 and all(isinstance(e, ast.Name) for e in t.elts[1].elts):
+            found = (st, t.elts[1].elts[0].id, t.elts[1].elts[1].id)
+    if found is None:
+        raise Untranslatable('no `for n, m in nms` loop')
+    return found
+
+
 def generate(repo):
     _refresh_c07(repo)
     g = Gen('C08', imports=['PrysmVerif.PyPrelude', 'PrysmVerif.Model.C08', 'PrysmVerif.Generated.C07'], header=HDR)
@@ -386,7 +404,7 @@ def generate(repo):
         seqfn = 'jacobi_der_seq' if der else 'jacobi_seq'
 
         def build():
-            fn = get_def(che, name)
+            fn = get_def_inlined(che, name)
             cs = find_assign(fn, 'cs', which=-1)
             seq = find_assign(fn, 'seq')
             (ret,) = find_returns(fn)
@@ -429,7 +447,7 @@ def generate(repo):
 
     # ---- xy_seq: family of the monomial tables and how a term is assembled
     def xyseq():
-        fn = get_def(xyf, 'xy_seq')
+        fn = get_def_inlined(xyf, 'xy_seq')
         xs, ys = find_assign(fn, 'x_seq'), find_assign(fn, 'y_seq')
         ms, ns = find_assign(fn, 'ms'), find_assign(fn, 'ns')
         if ast.unparse(ms) != 'truenp.arange(0, maxm + 1)' or ast.unparse(ns) != 'truenp.arange(0, maxn + 1)':
@@ -463,7 +481,7 @@ def generate(repo):
 
     # ---- zernike_nm_seq: table arguments and look-up index
     def zseq():
-        fn = get_def(zer, 'zernike_nm_seq')
+        fn = get_def_inlined(zer, 'zernike_nm_seq')
         x = find_assign(fn, 'x')
         calls = find_calls(fn, 'jacobi_seq')
         if len(calls) != 1:
@@ -472,10 +490,7 @@ def generate(repo):
         if ast.unparse(c.args[0]) != 'n_jac' or ast.unparse(c.args[3]) != 'x':
             raise Untranslatable('zernike_nm_seq table is not jacobi_seq(n_jac, a, b, x)')
         # final loop: nj = (n - absm)//2 ; jac = jacobi_seqs[absm][nj]
-        loops = [s for s in fn.body if isinstance(s, ast.For) and ast.unparse(s.target) == '(n, m)']
-        if len(loops) != 1:
-            raise Untranslatable('zernike_nm_seq: no final `for n, m in nms` loop')
-        lp = loops[0]
+        lp, _, _ = _pair_loop(fn)
         absm = find_assign(lp, 'absm')
         nj = find_assign(lp, 'nj')
         jac = find_assign(lp, 'jac', which=0)
@@ -495,13 +510,8 @@ def generate(repo):
         """the body of the final `for n, m in nms` loop of zernike_nm_seq, as a function of one requested pair.  Look-ups in the
         dictionaries filled by `for m in amu: D[m] = <expr(m)>` are replaced by `<expr(key)>`; `jacobi_seqs[key][idx]` becomes
         `tbl key idx`; `out[k] = v; k += 1` becomes the returned value."""
-        fn = get_def(zer, 'zernike_nm_seq')
-        loops = [st for st in fn.body if isinstance(st, ast.For) and isinstance(st.target, ast.Tuple) and ast.unparse(st.iter) == 'nms'
-                 and len(st.target.elts) == 2]
-        if not loops:
-            raise Untranslatable('no `for n, m in nms` loop')
-        lp = loops[-1]
-        nvar, mvar = (e.id for e in lp.target.elts)
+        fn = get_def_inlined(zer, 'zernike_nm_seq')
+        lp, nvar, mvar = _pair_loop(fn)
         fills = {}
         for st in fn.body:
             if isinstance(st, ast.For) and isinstance(st.target, ast.Name) and ast.unparse(st.iter) == 'amu':
@@ -576,7 +586,7 @@ def generate(repo):
             (qp0, 'qpoly.py', 'Qbfs_seq', 'qbfsSeq', 'ns', 'x'), (qp0, 'qpoly.py', 'Q2d_seq', 'q2dSeq', 'nms', 'x'),
             (zer, 'zernike.py', 'zernike_nm_seq', 'zernikeNmSeq', 'nms', 'r')]:
         def build(mod=mod, py=py, lean=lean, lst=lst, coord=coord):
-            fn = get_def(mod, py)
+            fn = get_def_inlined(mod, py)
             kinds = [alloc_kind(v, lst, coord) for v in find_assigns(fn, 'out')]
             kinds = [k for k in kinds if k is not None]
             if len(kinds) != 1:
@@ -589,7 +599,7 @@ def generate(repo):
 
     # ---- one-line wrappers: legendre_seq, Qcon_seq (which sweep, which parameters, which argument, which factor)
     def legseq():
-        fn = get_def(leg0, 'legendre_seq')
+        fn = get_def_inlined(leg0, 'legendre_seq')
         (ret,) = find_returns(fn)
         if not (isinstance(ret, ast.Call) and ast.unparse(ret.func) == 'jacobi_seq' and len(ret.args) == 4
                 and ast.unparse(ret.args[0]) == 'ns' and ast.unparse(ret.args[3]) == 'x'
@@ -602,7 +612,7 @@ def generate(repo):
            'def legendreSeqParams : K × K := (Num.ofInt 0, Num.ofInt 0)')
 
     def qconseq():
-        fn = get_def(qp0, 'Qcon_seq')
+        fn = get_def_inlined(qp0, 'Qcon_seq')
         calls = find_calls(fn, 'jacobi_seq')
         if len(calls) != 1 or ast.unparse(calls[0].args[0]) != 'ns':
             raise Untranslatable('Qcon_seq does not call jacobi_seq(ns, …) once')
@@ -639,7 +649,7 @@ def generate(repo):
     for (py, lean, callee) in (('hermite_He_der', 'hermiteHeDer', 'hermite_He'), ('hermite_H_der', 'hermiteHDer', 'hermite_H')):
         def build(py=py, lean=lean, callee=callee):
             gen = {'hermite_He': 'Generated.C07.hermiteHe', 'hermite_H': 'Generated.C07.hermiteH'}
-            return translate_fn(get_def(her0, py), lean, ['n'], ['x'], tr_kwargs={'mixed': {callee: (gen[callee], 'ik')}})
+            return translate_fn(get_def_inlined(her0, py), lean, ['n'], ['x'], tr_kwargs={'mixed': {callee: (gen[callee], 'ik')}})
         g.item(py, f'prysm/polynomials/hermite.py:{py}', (lambda py=py: get_def(her0, py)), build,
                f'def {lean} (n : Int) (x : K) : K := if n = 0 then Num.ofInt 0 else '
                + ('Num.ofInt n' if py == 'hermite_He_der' else 'Num.ofInt (2 * n)') + f' * {M7}.{"hermiteHe" if py == "hermite_He_der" else "hermiteH"} (n - 1).toNat x')
@@ -716,7 +726,7 @@ def generate(repo):
             (dic, 'dickson.py', 'dickson1_seq', 'dickson1Seq', ['alpha', 'x'], None, '', f'{M}.dickRec ({M7}.nat 2) alpha x'),
             (dic, 'dickson.py', 'dickson2_seq', 'dickson2Seq', ['alpha', 'x'], None, '', f'{M}.dickRec ({M7}.nat 1) alpha x')]:
         def build(mod=mod, py=py, lean=lean, ks=ks, tf=tf, xb=xb):
-            return translate_seq(get_def(mod, py), lean, ks, tuple_funcs=tf, extra_binders=xb)
+            return translate_seq(get_def_inlined(mod, py), lean, ks, tuple_funcs=tf, extra_binders=xb)
         g.item(py, f'prysm/polynomials/{rel}:{py}', (lambda mod=mod, py=py: get_def(mod, py)), build,
                f'def {lean} {xb}(ns : List Nat) ({" ".join(ks)} : K) : Option (List K) := {M}.sweep ({rec}) ns')
 
